@@ -44,7 +44,7 @@ ASSUMPTIONS = ["mdoc grammar: unique keys, the same key set in every section (ra
                "table cells compare by value: numbers with ==, texts verbatim; an int and a float of equal value are the same",
                "file numbers are compared as float32 (the loaders' documented data type) within 2 ulp; defocus from ctffind4 within 1e-6 relative",
                "sort_by_tilt with tied angles may order the tied images either way; tilt ties are excluded from dose and wedge pairings",
-               "tilt files given to the wedge-list functions hold ascending angles (quantifier); tomogram lists read from a file come back ascending",
+               "tilt files given to the wedge-list functions hold ascending angles, exact repeats allowed (quantifier; the i-th line pairs with the i-th defocus/dose row); tomogram lists read from a file come back ascending",
                "total_dose_load from an mdoc without PriorRecordDose (DateTime branch) is exercised but not judged: the statement defines prior + exposure only",
                "re-reading a written mdoc with zero kept images is not judged (the grammar has 1..80 images)"]
 
@@ -797,13 +797,19 @@ def gen_mdoc_case(ctx, rng, i, cls):
             "nt": n >= 2 and (bool(ops) or hostile), "summary": summ}
 
 
-def _asc_values(rng, n, lo=-70.0, hi=70.0, dec=2):
+def _asc_values(rng, n, lo=-70.0, hi=70.0, dec=2, repeats=0.0):
+    """ascending numbers; with probability `repeats` 1..3 of them are exact repeats of their left neighbour (a tilt taken twice)"""
     if n == 1:
         return np.round(rng.uniform(lo, hi, 1), dec)
     step = (hi - lo) / n
     v = lo + step * np.arange(n) + rng.uniform(0.05 * step, 0.9 * step, n)
     v = np.round(v, dec)
-    return v if np.all(np.diff(v) > 0) else np.round(lo + step * np.arange(n), dec)
+    v = v if np.all(np.diff(v) > 0) else np.round(lo + step * np.arange(n), dec)
+    if rng.random() < repeats:
+        for j in rng.choice(np.arange(1, n), min(n - 1, int(rng.integers(1, 4))), replace=False):
+            v[j] = v[j - 1]
+        v = np.sort(v)
+    return v
 
 
 def _n_rows(rng, tier):
@@ -820,7 +826,7 @@ def gen_loader_case(ctx, rng, i, cls):
             n = _n_rows(rng, tier)
             style = O.NUM_STYLES[(i // len(CLASSES) * 3 + k) % len(O.NUM_STYLES)]
             if cls == "tlt_files":
-                vals = _asc_values(rng, n, dec=int(rng.choice([1, 2, 2, 3])))
+                vals = _asc_values(rng, n, dec=int(rng.choice([1, 2, 2, 3])), repeats=0.45)
             else:
                 vals = np.round(rng.uniform(0, 150, n), 3)
             filesl.append({"n": n, "style": style, "values": [float(x) for x in vals], "sub": int(rng.integers(0, 1 << 30))})
@@ -828,8 +834,8 @@ def gen_loader_case(ctx, rng, i, cls):
         return {"i": i, "cls": cls, "kind": "numbers", "files": filesl, "nt": any(f["n"] >= 2 for f in filesl), "summary": summ}
     if cls == "dose_mdoc":
         n = _n_rows(rng, tier)
-        st = O.gen_mdoc(rng, n, cls=str(rng.choice(["plain", "crlf"])), with_prior=bool(rng.random() < 0.85))
-        summ = {"images": n, "scheme": st["scheme"], "prior": st["with_prior"], "layout": st["layout"], "first": st["sections"][0]["items"][:4]}
+        st = O.gen_mdoc(rng, n, cls=str(rng.choice(["plain", "crlf"])), with_prior=bool(rng.random() < 0.85), ties=bool(rng.random() < 0.35))
+        summ = {"images": n, "tilt_repeats": n - len(set(st["tilts"])), "scheme": st["scheme"], "prior": st["with_prior"], "layout": st["layout"], "first": st["sections"][0]["items"][:4]}
         return {"i": i, "cls": cls, "kind": "dose_mdoc", "st": st, "nt": n >= 2, "summary": summ}
     n = _n_rows(rng, tier)
     U = np.round(rng.uniform(5000, 80000, n), 6)
@@ -894,7 +900,7 @@ def gen_wedge_case(ctx, rng, i, cls):
     tomos = []
     for t in ids:
         n = _n_rows(rng, tier) if T <= 2 else int(rng.integers(1, 16 if tier == "quick" else 41))
-        tilts = _asc_values(rng, n, dec=2)
+        tilts = _asc_values(rng, n, dec=2, repeats=0.35 if tlt_kind == "tlt" else 0.0)
         U = np.round(rng.uniform(5000, 80000, n), 2)
         V = np.round(U - rng.uniform(-3000, 3000, n), 2)
         dose_step = float(np.round(rng.uniform(0.5, 4), 2))
@@ -1194,9 +1200,15 @@ def run_dose_mdoc(ctx, case):
     for sort in (True, False):
         ok, r = ctx.call("total_dose_load(mdoc)", io.total_dose_load, path, sort_mdoc=sort)
         if ok:
-            exp = dose[np.argsort(tilts, kind="stable")] if sort else dose
+            order = np.argsort(tilts, kind="stable")
+            exp = dose[order] if sort else dose
             try:
                 rf = np.array([float(x) for x in np.asarray(r).ravel()])
+                if sort and rf.shape == exp.shape:       # images with the same angle may come in either order: compare per angle as multisets
+                    ts = tilts[order]
+                    for a in np.unique(ts):
+                        g = ts == a
+                        rf[g], exp[g] = np.sort(rf[g]), np.sort(exp[g])
                 good = rf.shape == exp.shape and bool(np.all(np.abs(rf - exp) <= 1e-9 * np.maximum(1, exp)))
             except (TypeError, ValueError):
                 good = False
@@ -1525,7 +1537,7 @@ def extra(ctx):
     ctx.extra["index subsets of a 5-image mdoc x kept_only (after sort + one removal)"] = n_sub
     n_len = 0
     for n in range(1, 81):
-        vals = _asc_values(rng, n)
+        vals = _asc_values(rng, n, repeats=0.5)
         text, toks = O.render_numbers(rng, vals, O.NUM_STYLES[n % len(O.NUM_STYLES)])
         p = os.path.join(base, "len_%d.tlt" % n)
         _write_text(p, text)
